@@ -1078,7 +1078,7 @@ class OdeSystem(object):
 
                     if not self.__dense_output:
                         for _ in range(__pre_length - 1):
-                            self.__sol.remove_interpolant(0)
+                            self.__sol.remove_interpolant(0 if dTime >= 0 else -1)
 
                 steps += 1
                 
